@@ -23,7 +23,9 @@ def run_row(row):
     common.quiet_stdio()
     req = row["req"]
     method, pname, src, mode = req["method"], req["p"], req["src"], int(req["mode"])
-    sp, xyz, q, mult = scf_driver.build_batch(["formamide"])
+    names = row.get("mols", ["formamide"])
+    conv = row.get("conv", [1])
+    sp, xyz, q, mult = scf_driver.build_batch(names, displace=float(row.get("displace", 0.0)))   # displaced: no degenerate levels
     ref = Molecule(Constants(), mdlib.seqm_params(method=method), xyz.clone(), sp)
     leaf = ref.parameters[pname].detach().clone().requires_grad_(True)
     if src == "leaf":
@@ -32,14 +34,23 @@ def run_row(row):
         lp = {pname: leaf * 1.0}
     else:
         lp = lambda species, coords: {pname: leaf * (1.0 + 0.0 * coords.sum())}  # noqa: E731
-    p = mdlib.seqm_params(method=method, scf_eps=1e-9, scf_converger=[1], scf_backward=mode, learned=[pname])
+    p = mdlib.seqm_params(method=method, scf_eps=1e-9 if not row.get("fd") else 1e-11, scf_converger=conv, scf_backward=mode, learned=[pname])
     out = {"raised": False, "proj": {}}
+    wts = torch.tensor([1.0 + 0.7 * m for m in range(len(names))], dtype=torch.float64)   # every row of a batch counts, differently
+
+    def outputs(o, nocc):
+        Hf, Etot, e_gap, e, P = o[0], o[1], o[6], o[7], o[8]
+        return {"Etot": (wts * Etot).sum(), "Hf": (wts * Hf).sum(), "gap": (wts * e_gap).sum(),
+                "e_mo": sum(wts[m] * e[m, : int(nocc[m]) + 1].sum() for m in range(len(names))),
+                "q": sum(wts[m] * P[m].diagonal()[:4].sum() for m in range(len(names)))}
+
     try:
         mol = Molecule(Constants(), p, xyz.clone(), sp, learned_parameters=lp)
         mol.verbose = False
-        Hf, Etot, Eelec, Enuc, Eiso, EnucAB, e_gap, e, P, charge, nc = Energy(p)(mol, learned_parameters=lp, all_terms=True)
-        nocc = int(mol.nocc[0])
-        vals = {"Etot": Etot.sum(), "Hf": Hf.sum(), "gap": e_gap.sum(), "e_mo": e[0, : nocc + 1].sum(), "q": P[0].diagonal()[:4].sum()}
+        o = Energy(p)(mol, learned_parameters=lp, all_terms=True)
+        nc = o[10]
+        nocc = [int(x) for x in mol.nocc]
+        vals = outputs(o, nocc)
         for name, val in vals.items():
             if not val.requires_grad:
                 out["proj"][name] = "none"
@@ -52,6 +63,58 @@ def run_row(row):
             else:
                 out["proj"][name] = "nonzero" if float(g.abs().sum()) > 0 else "zero"
         out["flag"] = bool(nc.any())
+        if row.get("fd"):
+            # directional derivative along a fixed direction of the caller's tensor: autograd vs central difference
+            gen = torch.Generator().manual_seed(11)
+            d = torch.rand(leaf.shape, generator=gen, dtype=leaf.dtype) + 0.5
+            d = d * (leaf.detach().abs() > 0).to(leaf.dtype)          # atoms that do not carry the parameter keep their zero
+            scale = float(leaf.detach().abs().max()) or 1.0
+            h = 4.0e-4 * scale
+            ad = {}
+            for name, val in vals.items():
+                if val.requires_grad:
+                    g = torch.autograd.grad(val, leaf, allow_unused=True, retain_graph=True)[0]
+                    if g is not None:
+                        ad[name] = float((g * d).sum())
+
+            def values(theta):
+                with torch.no_grad():
+                    lp2 = {pname: theta}
+                    m2 = Molecule(Constants(), p0, xyz.clone(), sp, learned_parameters=lp2)
+                    m2.verbose = False
+                    return {k: float(v) for k, v in outputs(Energy(p0)(m2, learned_parameters=lp2, all_terms=True), nocc).items()}
+
+            p0 = mdlib.seqm_params(method=method, scf_eps=1e-11, scf_converger=[1], scf_backward=0, learned=[pname])
+            out["hessian"] = None
+            if row.get("hessian") and mode == 2:
+                # unrolled back-propagation twice: Hessian of Etot w.r.t. the coordinates, against central differences of the force
+                xr = xyz.clone().requires_grad_(True)
+                mh = Molecule(Constants(), p, xr, sp, learned_parameters={pname: leaf.detach()})
+                mh.verbose = False
+                Eh = (wts * Energy(p)(mh, learned_parameters={pname: leaf.detach()}, all_terms=True)[1]).sum()
+                xr = mh.coordinates
+                g1 = torch.autograd.grad(Eh, xr, create_graph=True)[0]
+                idx = [(0, 0, 0), (0, 1, 1), (len(names) - 1, 2, 2), (0, 2, 0)]
+                H = torch.stack([torch.autograd.grad(g1[i], xr, retain_graph=True)[0] for i in idx])
+                sym = max(abs(float(H[a][idx[b]]) - float(H[b][idx[a]])) for a in range(len(idx)) for b in range(len(idx)))
+                fdh = []
+                hh = 1.0e-4
+                for k, i in enumerate(idx):
+                    gs = []
+                    for sgn in (1.0, -1.0):
+                        x2 = xyz.clone()
+                        x2[i] += sgn * hh
+                        x2.requires_grad_(True)
+                        m3 = Molecule(Constants(), p0, x2, sp, learned_parameters={pname: leaf.detach()})
+                        m3.verbose = False
+                        e3 = (wts * Energy(p0)(m3, learned_parameters={pname: leaf.detach()}, all_terms=True)[1]).sum()
+                        gs.append(torch.autograd.grad(e3, m3.coordinates)[0])
+                    fdh.append(float(((gs[0] - gs[1]) / (2 * hh) - H[k]).abs().max()))
+                out["hessian"] = {"asym": sym, "fd_dev": max(fdh), "scale": float(H.abs().max())}
+            vp, vm = values(leaf.detach() + h * d), values(leaf.detach() - h * d)
+            vp2, vm2 = values(leaf.detach() + 0.5 * h * d), values(leaf.detach() - 0.5 * h * d)
+            # Richardson: (4 D(h/2) - D(h)) / 3
+            out["fd"] = {name: [ad[name], (4.0 * (vp2[name] - vm2[name]) / h - (vp[name] - vm[name]) / (2 * h)) / 3.0] for name in ad}
     except Exception as ex:  # noqa
         out["raised"] = True
         out["error"] = f"{type(ex).__name__}: {str(ex)[:200]}"
